@@ -184,8 +184,10 @@ pub fn judge(cfg: &Config, events: &[Ev], out: &ExecOut, open: &BTreeSet<String>
         return Verdict3::Violation;
     }
     let b = exec_named(Lib::Base, cfg, events, false);
+    // identical behaviour means: the same judged failure and the same list of soft failures along the run
+    let same_soft = out.soft.len() == b.soft.len() && out.soft.iter().zip(b.soft.iter()).all(|(x, y)| same_failure(x, y));
     match b.primary() {
-        Some(bf) if same_failure(bf, f) => Verdict3::Known(trig),
+        Some(bf) if same_failure(bf, f) && same_soft => Verdict3::Known(trig),
         _ => Verdict3::Violation,
     }
 }
